@@ -2,6 +2,7 @@ SPECIFICATION Spec
 CONSTANTS
   Files = {"r", "a", "b"}
   Root = "r"
+  SubFiles = {"b"}
   MaxDepth = 8
   FileSeq <- Seq3
   MaxStmts = 4
@@ -9,6 +10,6 @@ CONSTANTS
   GenSpellings = {"plain", "dot"}
   DevChoices <- DevIdeal
   MaxFaultAt = 0
-INVARIANTS LockDiscipline DepthBound LoopOnlyOnCycle NeverOverflow InitOnce OkOnlyAcyclic Emit
+INVARIANTS UrlsResolve LockDiscipline DepthBound LoopOnlyOnCycle NeverOverflow InitOnce OkOnlyAcyclic Emit
 PROPERTY Termination
 CHECK_DEADLOCK FALSE
